@@ -361,19 +361,25 @@ def boundaries_table(rep):
     fn = idx.get("praatio_scripts:tgBoundariesToZeroCrossings")
     at = Atoms()
     ents, m, M = declare_tier(at, 2, "interval", span=True, span_atoms=False)
-    pts, _, _ = declare_tier(at, 2, "point", prefix="p", span=False)
+    pts, _, _ = declare_tier(at, 2, "point", prefix="p", span=False, as_atoms=False)
+    qts, _, _ = declare_tier(at, 1, "point", prefix="q", span=False, as_atoms=False)   # a second point tier
+    jvs, _, _ = declare_tier(at, 1, "interval", prefix="j", span=False, as_atoms=False)  # and a second interval tier
     at.fact_le(m, Lin.var("pt1"))
     at.fact_le(Lin.var("pt2"), M)
+    at.fact_le(m, Lin.var("qt1")); at.fact_le(Lin.var("qt1"), M)
+    at.fact_le(m, Lin.var("js1")); at.fact_le(Lin.var("je1"), M)
     at.var("M")
     # the crossing found for each timestamp: fresh symbols, order preserved, inside the span
-    names = ["s1", "e1", "s2", "e2", "pt1", "pt2"]
+    names = ["s1", "e1", "s2", "e2", "pt1", "pt2", "qt1", "js1", "je1"]
     z = {n: Lin.var("z" + n) for n in names}
     at.fact_le(m, z["s1"]); at.fact_lt(z["s1"], z["e1"]); at.fact_le(z["e1"], z["s2"]); at.fact_lt(z["s2"], z["e2"]); at.fact_le(z["e2"], M)
     at.fact_le(m, z["pt1"]); at.fact_lt(z["pt1"], z["pt2"]); at.fact_le(z["pt2"], M)
+    at.fact_le(m, z["qt1"]); at.fact_le(z["qt1"], M)
+    at.fact_le(m, z["js1"]); at.fact_lt(z["js1"], z["je1"]); at.fact_le(z["je1"], M)
 
     def code(I, mode):
         adj_p, adj_i = mode
-        tg, objs = build_tg(I, [("interval", "I", ents), ("point", "P", pts)], m, M)
+        tg, objs = build_tg(I, [("interval", "I", ents), ("point", "P", pts), ("point", "Q", qts), ("interval", "J", jvs)], m, M)
 
         def find(I_, t):
             for n in names:
@@ -388,18 +394,20 @@ def boundaries_table(rep):
         adj_p, adj_i = mode
         iv = [(z["s%d" % i] if adj_i else s, z["e%d" % i] if adj_i else e, l) for i, (s, e, l) in enumerate(ents, 1)]
         pv = [(z["pt%d" % i] if adj_p else t, l) for i, (t, l) in enumerate(pts, 1)]
-        return {"I": iv, "P": pv}
+        qv = [(z["qt1"] if adj_p else t, l) for t, l in qts]
+        jv = [(z["js1"] if adj_i else s_, z["je1"] if adj_i else e_, l) for s_, e_, l in jvs]
+        return {"I": iv, "P": pv, "Q": qv, "J": jv}
 
     def eq(I, g, w):
-        if [str(n) for n in g["names"]] != ["I", "P"]:
+        if [str(n) for n in g["names"]] != ["I", "P", "Q", "J"]:
             return "tier order %s" % g["names"]
-        for t, key in zip(g["tiers"], ("I", "P")):
+        for t, key in zip(g["tiers"], ("I", "P", "Q", "J")):
             d = tier_equal(I, t, {"entries": w[key]}, check_span=False)
             if d:
                 return "tier %s: %s" % (key, d)
         return None
     simple(rep, "S-boundaries", fn, at, [(True, True), (True, False), (False, True), (False, False)], code, spec,
-           "textgrid {2 intervals, 2 points}, every timestamp mapped to an order-preserving crossing", eq)
+           "textgrid {interval tiers I(2), J(1); point tiers P(2), Q(1)}, every timestamp mapped to an order-preserving crossing", eq)
 
 
 def splice_table(rep, k=2):
